@@ -234,6 +234,37 @@ func runConc(t *testing.T, p *Plan) *sim.Outcome {
 			log.Addf("pre-flush")
 		}
 		disk.ParkSeek = true
+		// lock-site parks: a client about to take the cache's mutex (Get, Put, Seek's snapshot, both phases of
+		// Persist) parks first at the plan's ordinals; it holds none of the cache's locks there
+		lockPark := map[int]bool{}
+		for _, x := range c.LockParks {
+			lockPark[x] = true
+		}
+		lockN := 0
+		depth := map[string]int{}
+		lockOn := true
+		storage.VerifLockYield = func(site string) {
+			if !lockOn {
+				return
+			}
+			gid := e.cur
+			switch site {
+			case "unlock", "runlock":
+				depth[gid]--
+				return
+			case "lock", "rlock":
+				depth[gid]++
+				if depth[gid] > 1 {
+					return
+				}
+			}
+			lockN++
+			if lockPark[lockN] {
+				out.Probes["parked_before_lock/"+site]++
+				e.park(gid, "lk-"+site)
+			}
+		}
+		defer func() { storage.VerifLockYield = nil }()
 
 		spawn := func(gid string, body func()) {
 			e.running++
@@ -349,6 +380,7 @@ func runConc(t *testing.T, p *Plan) *sim.Outcome {
 		disk.ParkSeek = false
 		disk.ParkPCS = false
 		disk.FailNext = false
+		lockOn = false
 		if e.viol != nil {
 			return
 		}
@@ -497,9 +529,11 @@ func (e *concEnv) oracles() *sim.Violation {
 				}
 			}
 		}
+		// a write has an extent of its own (it may be parked before it takes the lock): it is concurrent with the scan
+		// when the two intervals overlap at all
 		writerDuring := false
 		for _, w := range e.writes {
-			if w.inv > s.inv && w.ret < s.ret {
+			if w.inv < s.ret && w.ret > s.inv {
 				writerDuring = true
 			}
 		}
@@ -555,7 +589,7 @@ func (e *concEnv) oracles() *sim.Violation {
 			allowed := [][]byte{v0}
 			changed := false
 			for _, t := range timeline[k] {
-				if t.inv > s.inv && t.ret < s.ret {
+				if t.inv < s.ret && t.ret > s.inv {
 					allowed = append(allowed, t.val)
 					changed = true
 				}
@@ -584,7 +618,7 @@ func (e *concEnv) oracles() *sim.Violation {
 		}
 		// batches written during the scan: all-or-nothing unless a flush overlaps too
 		for wi, w := range e.writes {
-			if !w.batch || !(w.inv > s.inv && w.ret < s.ret) {
+			if !w.batch || !(w.inv < s.ret && w.ret > s.inv) {
 				continue
 			}
 			nNew, nOld := 0, 0
@@ -594,7 +628,7 @@ func (e *concEnv) oracles() *sim.Violation {
 				}
 				others := false
 				for _, t := range timeline[kv.key] {
-					if t.w != wi && t.inv > s.inv && t.ret < s.ret {
+					if t.w != wi && t.inv < s.ret && t.ret > s.inv {
 						others = true
 					}
 				}
